@@ -23,10 +23,12 @@ let parse_op (w : string list) : mop option =
   | ["live"] -> Some MLive
   | _ -> None
 
-(* "| size | shape" : pre-order, "(key:val colour left right)", "." = NULL *)
-let dump_map (s : mstate) : string =
+(* "| size | [comparator calls of the operation |] shape" : pre-order,
+   "(key:val colour left right)", "." = NULL *)
+let dump_map ?(cmps : int option) (s : mstate) : string =
   let b = Buffer.create 256 in
   Buffer.add_string b (Printf.sprintf "| %s |" (string_of_n s.msz));
+  (match cmps with Some n -> Buffer.add_string b (Printf.sprintf " %d |" n) | None -> ());
   let rec go t =
     match t with
     | TreeModel.E -> Buffer.add_string b " ."
@@ -67,11 +69,13 @@ let run_case (c : case) =
       (match parse_op w with
        | None -> Printf.printf "badop %s\n" (S.concat " " w); dead := true
        | Some o ->
-         (match step (ck_mod (nat_of_int h.cmod)) (oracle_of h) !st o with
+         let ck = ck_mod (nat_of_int h.cmod) and ok = oracle_of h in
+         (match step ck ok !st o with
           | Prelude.Done (s', out) ->
             let evs = new_events !st.mal s'.mal in
+            let cmps = int_of_nat (op_cmps ck ok !st o) in
             st := s';
-            Printf.printf "ok %s %s%s\n" (zs out) (dump_map s') (dump_events evs)
+            Printf.printf "ok %s %s%s\n" (zs out) (dump_map ~cmps s') (dump_events evs)
           | Prelude.Abort -> print_endline "abort"; dead := true
           | Prelude.Fault -> print_endline "fault"; dead := true
           | Prelude.Precond -> print_endline "precond"; dead := true))) c.lines;
@@ -87,7 +91,8 @@ let main ic = L.iter run_case (read_cases ic)
    at the first ordinal from which the oracle's answer no longer changes)
    agree.  The representative kept for a class is the state reached by the
    path that Util.bfs records for it.  Three allocator oracles: never
-   failing, "fail 1", "failfrom 2". *)
+   failing (with both pointer representations of the driver), "fail 1",
+   "failfrom 2". *)
 let explore (nkeys : int) (max_states : int) (cmod : int) =
   let rng n = L.init n (fun i -> i) in
   let ops = ref [] in
@@ -122,7 +127,9 @@ let explore (nkeys : int) (max_states : int) (cmod : int) =
       bfs ~header ~init:k0 ~ops ~step:step' ~max_states ~prefix:("bfs" ^ tag) stdout in
     tot_s := !tot_s + st; tot_t := !tot_t + tr; all_closed := !all_closed && closed in
   variant "n" [] { fails = []; from = None; cmod } 0 0;
-  variant "p" [] { fails = []; from = None; cmod } 0 1;
+  (* the NULL-valued-pointer representation without failures only in the small scopes; "fail 1" below
+     runs with it in every scope and differs from the fault-free closure only around the second request *)
+  if nkeys <= 4 then variant "p" [] { fails = []; from = None; cmod } 0 1;
   variant "s" ["fail 1"] { fails = [1]; from = None; cmod } 2 1;
   variant "f" ["failfrom 2"] { fails = []; from = Some 2; cmod } 2 0;
   Printf.eprintf "states %d transitions %d closed %b\n" !tot_s !tot_t !all_closed
